@@ -106,6 +106,11 @@ impl<F: CircuitField> Base64Instructions<F> for Base64Chip<F> {
             b64_input.len().is_multiple_of(4) || !padded,
             "If pad is selected, the Base64 encoded input length must be a multiple of 4."
         );
+        // A final chunk of 1 character only carries 6 bits, i.e., not even one byte.
+        assert!(
+            b64_input.len() % 4 != 1,
+            "The length of a Base64 encoded input cannot be 1 modulo 4."
+        );
         let mut last_chunk: B64Chunk<F>;
         let mut result = Vec::with_capacity(b64_input.len().div_ceil(4) * 3);
         let mut chunk_iter = b64_input.chunks(4).peekable();
